@@ -88,6 +88,8 @@ EXTRA_c10 := $(LOOP_OBJS)
 LDX_c10 := $(WRAP_LOOP)
 EXTRA_c16 := wrap_perturb.o
 LDX_c16 := -Wl,--wrap=pthread_spin_lock,--wrap=sem_post,--wrap=sem_wait
+LDX_c04 := -Wl,--wrap=usleep
+LDX_c06 := -Wl,--wrap=recv
 EXTRA_c17 := wrap_random.o
 LDX_c17 := $(WRAP_RANDOM)
 EXTRA_c18 := wrap_random.o
